@@ -30,6 +30,14 @@ def sh(cmd, cwd=None, env=None, timeout=3600, stdin=None):
         return 124, (ex.stdout or b"").decode("utf-8", "replace") + "\n[timeout]", time.time() - t0
 
 
+class NoLock:
+    def __enter__(self):
+        return self
+
+    def __exit__(self, *a):
+        return False
+
+
 class Lock:
     def __init__(self, name):
         os.makedirs(BUILD, exist_ok=True)
@@ -45,7 +53,7 @@ class Lock:
 
 
 # ---------------------------------------------------------------- T1: regenerate Gen/*.lean from /repo
-def regenerate():
+def regenerate(locked=False):
     """Runs tools/go2lean against REPO. Returns (ok, notes, facts) ; never raises an alarm itself."""
     gen_dir = os.path.join(LEAN, "SigModel", "Gen")
     os.makedirs(gen_dir, exist_ok=True)
@@ -64,7 +72,7 @@ def regenerate():
     if os.path.exists(fp):
         facts = json.load(open(fp))
     # install only changed files (keeps lake incremental); remove stale ones
-    with Lock("lake"):
+    with (NoLock() if locked else Lock("lake")):
         new = {os.path.basename(p) for p in glob.glob(os.path.join(tmp, "*.lean"))}
         for old in glob.glob(os.path.join(gen_dir, "*.lean")):
             if os.path.basename(old) not in new:
@@ -123,13 +131,13 @@ def lean_deps(mod, seen=None):
     return seen
 
 
-def lean_check(prop, thorough):
+def lean_check(prop, thorough, locked=False):
     """Build Props module, audit axioms. Returns dict(obligations, discharged, failed:[names], axioms, log)."""
     mod = "SigModel.Props." + prop
     path = os.path.join(LEAN, "SigModel", "Props", prop + ".lean")
     thms = theorems_of(path)
     res = dict(obligations=len(thms), discharged=0, failed=[], axioms={}, log="", theorems=[t for t, _ in thms], hygiene=[])
-    with Lock("lake"):
+    with (NoLock() if locked else Lock("lake")):
         rc, out, dt = sh(["lake", "build", mod, "oracle"], cwd=LEAN, timeout=3000)
     res["log"] = out[-6000:]
     res["build_s"] = round(dt, 1)
@@ -187,10 +195,23 @@ def lean_check(prop, thorough):
 
 
 # ---------------------------------------------------------------- Go side
-def build_corr():
+def build_corr(outdir=None):
+    """Builds the correspondence driver against REPO with the verif overlay.
+    outdir=None: shared binary build/corr (manual use).  outdir=<dir>: everything (go.mod, go.sum,
+    overlay.json, generated overlay files, binary) is private to that directory, so concurrent check
+    runs against different checkouts (VERIF_REPO) cannot disturb each other."""
+    global CORR
     os.makedirs(BUILD, exist_ok=True)
-    with Lock("go"):
-        shutil.copyfile(os.path.join(REPO, "go.sum"), os.path.join(HARNESS, "go.sum"))
+    priv = outdir is not None
+    work = outdir if priv else os.path.join(BUILD, "manual")
+    os.makedirs(work, exist_ok=True)
+    lock = Lock("go") if not priv else None
+    if lock:
+        lock.__enter__()
+    try:
+        modfile = os.path.join(work, "go.mod")
+        shutil.copyfile(os.path.join(REPO, "go.sum"), os.path.join(work, "go.sum"))
+        open(modfile, "w").write(open(os.path.join(HARNESS, "go.mod.tmpl")).read().replace("@REPO@", REPO))
         # overlay: every file under harness/overlay/<rel> is injected at REPO/<rel>
         ov = {}
         root = os.path.join(HARNESS, "overlay")
@@ -199,14 +220,12 @@ def build_corr():
                 if fn.endswith(".go"):
                     rel = os.path.relpath(os.path.join(dp, fn), root)
                     ov[os.path.join(REPO, rel)] = os.path.join(dp, fn)
-        mod = open(os.path.join(HARNESS, "go.mod.tmpl")).read().replace("@REPO@", REPO)
-        open(os.path.join(HARNESS, "go.mod"), "w").write(mod)
         # generated overlay files (kernels that are not functions of their own in REPO, copied textually from
         # REPO's working tree into exported wrappers): harness/cmd/overlaygen <REPO> <dir>, same layout as overlay/
-        gen_root = os.path.join(BUILD, "overlay_gen")
+        gen_root = os.path.join(work, "overlay_gen")
         shutil.rmtree(gen_root, ignore_errors=True)
         if os.path.isdir(os.path.join(HARNESS, "cmd", "overlaygen")):
-            rc, out, dt = sh(["go", "run", "./cmd/overlaygen", REPO, gen_root], cwd=HARNESS, env=goenv(), timeout=600)
+            rc, out, dt = sh(["go", "run", "-modfile", modfile, "./cmd/overlaygen", REPO, gen_root], cwd=HARNESS, env=goenv(), timeout=600)
             if rc != 0:
                 return False, "overlaygen failed:\n" + out, dt
             for dp, _, fns in os.walk(gen_root):
@@ -214,9 +233,15 @@ def build_corr():
                     if fn.endswith(".go"):
                         rel = os.path.relpath(os.path.join(dp, fn), gen_root)
                         ov[os.path.join(REPO, rel)] = os.path.join(dp, fn)
-        ovp = os.path.join(BUILD, "overlay.json")
+        ovp = os.path.join(work, "overlay.json")
         json.dump({"Replace": ov}, open(ovp, "w"), indent=1)
-        rc, out, dt = sh(["go", "build", "-tags", "verif", "-overlay", ovp, "-o", CORR, "./cmd/corr"], cwd=HARNESS, env=goenv(), timeout=1800)
+        target = os.path.join(work, "corr") if priv else os.path.join(BUILD, "corr")
+        rc, out, dt = sh(["go", "build", "-modfile", modfile, "-tags", "verif", "-overlay", ovp, "-o", target, "./cmd/corr"], cwd=HARNESS, env=goenv(), timeout=1800)
+        if rc == 0 and priv:
+            CORR = target
+    finally:
+        if lock:
+            lock.__exit__()
     return rc == 0, out, dt
 
 
@@ -393,8 +418,20 @@ def run_check(prop, tier, seed):
     known, fixed = load_known(prop)
     notes = []
 
-    # 1. T1 regenerate
-    gen_ok, gen_notes, facts = regenerate()
+    rundir = os.path.join(BUILD, "run", "%s-%d" % (prop, os.getpid()))
+    shutil.rmtree(rundir, ignore_errors=True)
+    os.makedirs(rundir)
+    global ORACLE
+    # 1+2. ONE critical section: regenerate Gen/* from REPO, build + audit the theorems against exactly
+    # that Gen, and take a private copy of the oracle built from it (other runs may target other checkouts)
+    with Lock("lake"):
+        gen_ok, gen_notes, facts = regenerate(locked=True)
+        lc = lean_check(prop, thorough, locked=True)
+        shared_oracle = os.path.join(LEAN, ".lake", "build", "bin", "oracle")
+        if os.path.exists(shared_oracle):
+            shutil.copyfile(shared_oracle, os.path.join(rundir, "oracle"))
+            os.chmod(os.path.join(rundir, "oracle"), 0o755)
+            ORACLE = os.path.join(rundir, "oracle")
     notes += ["go2lean: " + n for n in gen_notes]
 
     # 1b. fact expectations (ordered callee lists, constants) — hand-written expectations vs regenerated facts
@@ -403,21 +440,15 @@ def run_check(prop, tier, seed):
         got = facts.get(key)
         if got != expect:
             fact_fail.append(dict(fact=key, expected=expect, got=got))
-
-    # 2. Lean
-    lc = lean_check(prop, thorough)
     lean_broken = bool(lc["failed"]) or bool(lc["hygiene"])
 
-    # 3. harness
-    ok, out, dt = build_corr()
+    # 3. harness (private build for this run)
+    ok, out, dt = build_corr(os.path.join(rundir, "gobuild"))
     suites_res = []
     if not ok:
         path = write_replay(prop, "harness-build", dict(what="correspondence harness no longer builds against /repo", log=out[-4000:]))
         violations.append((path, " no-failing-input-found"))
     else:
-        rundir = os.path.join(BUILD, "run", "%s-%d" % (prop, os.getpid()))
-        shutil.rmtree(rundir, ignore_errors=True)
-        os.makedirs(rundir)
         boost = thorough or lean_broken or bool(fact_fail)
         for s in cfg["suites"]:
             name, nq, nt = s[0], s[1], s[2]
@@ -426,7 +457,7 @@ def run_check(prop, tier, seed):
             for sd in seeds:
                 r = run_suite(name, sd, n if not thorough else max(1, n // len(seeds)), tier, os.path.join(rundir, "%s-%d" % (name, sd)))
                 suites_res.append(r)
-        shutil.rmtree(rundir, ignore_errors=True)
+    shutil.rmtree(rundir, ignore_errors=True)
 
     # 4. verdict
     known_sigs = {k for k, _ in known}
